@@ -116,7 +116,24 @@ def main(tier, replay=None):
             rng = random.Random("c08/%d/%d" % (seed, k))
             base, _ = gen.rand_case(seed, 90000 + k, max_bits=rng.choice([60, 300, 1500]),
                                     p_enum_nonzero_first=0.1, consts=True)
-            variants = [("valid", base, "unchanged", False)]
+            # syntax the statement of C08 does not mention but the grammar has (modelled as what the code
+            # does): the deprecated typedef spelling, the proto line after definitions, a second proto line
+            # (the last one names the proto, also for importers), yes/no booleans
+            import copy as _copy
+            b2 = _copy.deepcopy(base)
+            b2.pop("rtype", None)
+            for ds in b2["files"].values():
+                for d_ in ds:
+                    if d_["d"] == "alias" and rng.random() < 0.5:
+                        d_["typedef"] = True
+            mainf = b2["files"][b2["main"]]
+            if rng.random() < 0.5:
+                pl = [x for x in mainf if x["d"] == "proto"][0]
+                mainf.remove(pl)
+                mainf.append(pl)
+            if rng.random() < 0.3:
+                mainf.insert(0, {"d": "proto", "name": "earlier_name"})
+            variants = [("valid", base, "unchanged", False), ("valid-unusual-syntax", b2, "typedef / late proto line", False)]
             rules = rng.sample(inject.CATALOGUE, per)
             for rule in rules:
                 got = inject.inject(base, rule, rng)
